@@ -110,6 +110,15 @@ class Spec(object):
     def families(self, tier):
         return focused(tier)
 
+    def explicit_families(self, tier):
+        out = [single("E c=1 cap=1", "E", c=1, K=None, T=BIG, srv=SRV2, nodekw={"cap": 1}, features=["explicit", "capacity"])]
+        if tier != "quick":
+            out.append(single("E c=2 cap=1 batches", "E", c=2, K=None, T=BIG, srv=SRV2, nodekw={"cap": 1}, classkw={"batch": [[2, 1, 0]]}, features=["explicit", "capacity"]))
+            out.append(single("E syscap=2 renege", "E", c=1, K=None, T=BIG, srv=[4.0, 1.0], system_capacity=2, classkw={"renege": [[1.5, 0.5]]}, features=["explicit", "syscap"]))
+            out.append(cfg("E tandem cap=0 syscap=3 both external", "E", [node(c=1), node(c=1, cap=0)],
+                           {"A": klass([ARR, [1.0, 2.0]], [SRV2, SRV2], route=matrix([[0.0, 1.0], [0.0, 0.0]]))}, K=None, T=BIG, system_capacity=3, features=["explicit"]))
+        return out
+
 
 def focused(tier):
     K = 4 if tier == "quick" else 5
